@@ -46,7 +46,13 @@ def m114(r):
     text = " ".join("%s:%s" % (a, vals[a]) for a in axes)
     cnt = [a for a in axes if a != "E"]
     if r.random() < 0.85:
-        text += " Count " + " ".join("%s:%s" % (a, num(r).split(".")[0].replace("-", "") or "0") for a in cnt)
+        if r.random() < 0.3:
+            # CoreXY / delta firmwares report stepper counts under other letters (A, B, C)
+            cnt = r.choice([["A", "B", "Z"], ["A", "B", "C"], ["X", "Y", "Z", "A"]])
+        cvals = {a: (("-" if r.random() < 0.3 else "") + (num(r).split(".")[0].replace("-", "") or "0")) for a in cnt}
+        text += " Count " + " ".join("%s:%s" % (a, cvals[a]) for a in cnt)
+        for a in cnt:
+            vals.setdefault(a, cvals[a])     # a letter first mentioned after 'Count' is still a reported letter
     return text, vals
 
 
